@@ -14,7 +14,7 @@ refuses (`error:notInverse`) when the supplied matrix is not the exact inverse, 
 the inverse law as a hypothesis.  The interpolators themselves (`scipy.ndimage`, `cubic_spline.c`)
 enter as a structure `Interp` with the two laws the property needs.
 -/
-import NipyVerif.Model.Common
+import NipyVerif.Model.C04T
 namespace NipyVerif.C04
 
 /-! ### Vectors, affine maps -/
@@ -138,12 +138,20 @@ def linear1Eval (cval : Rat) (g : Grid 1) (x : Vec 1) : Rat :=
 def nPrepad (order : Nat) (mode : String) : Nat :=
   if order > 1 ∧ (mode = "nearest" ∨ mode = "grid-constant") then 12 else 0
 
-def clampInt (lo hi x : Int) : Int := if x < lo then lo else if hi < x then hi else x
-
 /-- `np.pad(data, k, mode='edge')` -/
 def padEdge {n : Nat} (g : Grid n) (k : Nat) : Grid n :=
   ⟨fun i => g.shape i + 2 * k,
    fun q => g.val (fun i => clampInt 0 ((g.shape i : Int) - 1) (q i - (k : Int)))⟩
+
+/-- `np.pad(data, k, mode='constant', constant_values=cval)` -/
+def padConst {n : Nat} (g : Grid n) (k : Nat) (cval : Rat) : Grid n :=
+  ⟨fun i => g.shape i + 2 * k,
+   fun q => if g.insideB (fun i => q i - (k : Int)) then g.val (fun i => q i - (k : Int)) else cval⟩
+
+/-- the knot array `_buildknots` hands to `spline_filter`: the image itself when no pre-pad is
+    needed, its border samples repeated for `nearest`, the fill value around it for `grid-constant` -/
+def knots {n : Nat} (g : Grid n) (order : Nat) (mode : String) (cval : Rat) : Grid n :=
+  if mode = "grid-constant" then padConst g (nPrepad order mode) cval else padEdge g (nPrepad order mode)
 
 /-- coordinates `evaluate` hands to `map_coordinates`: `cmapi(points) + _n_prepad` -/
 def evalCoords {n : Nat} (srcInv : Aff n n) (order : Nat) (mode : String) (pt : Vec n) : Vec n :=
@@ -252,8 +260,6 @@ def Vol.flip (v : Vol) (a : Fin 3) : Vol :=
 
 /-- `axis_numbers = argmax(abs(A), axis=0)` for a column with exactly one non-zero entry:
     the row of that entry (first maximal row otherwise, as `argmax`) -/
-def absR (q : Rat) : Rat := if q < 0 then -q else q
-
 def argmaxCol (A : Fin 3 → Fin 3 → Rat) (j : Fin 3) : Fin 3 :=
   let a0 := absR (A 0 j); let a1 := absR (A 1 j); let a2 := absR (A 2 j)
   if a1 ≤ a0 ∧ a2 ≤ a0 then 0 else if a2 ≤ a1 then 1 else 2
@@ -283,6 +289,87 @@ def Vol.xyzOrdered (v : Vol) : Option Vol :=
     some ⟨w.g, ⟨fun i j => if i = j then w.aff.A i j else 0, w.aff.b⟩⟩
   else none
 
+/-! ### Typed arrays, boundary modes on `n`-dimensional indices -/
+
+/-- an array of dtype `d`: every stored sample is a value of that dtype -/
+def Grid.Typed {n : Nat} (g : Grid n) (d : DType) : Prop :=
+  ∀ p, g.inside p → d.representable (g.val p) = true
+
+/-- the array index an integer point reads under a boundary mode, axis by axis
+    (`none`: the fill value) -/
+def extPoint {n : Nat} (m : Mode) (g : Grid n) (p : Fin n → Int) : Option (Fin n → Int) :=
+  if (List.finRange n).all (fun i => (extIndex m (g.shape i) (p i)).isSome) then
+    some (fun i => (((extIndex m (g.shape i) (p i)).getD 0 : Nat) : Int))
+  else none
+
+/-- value of the boundary-extended array at an integer point -/
+def extValue {n : Nat} (m : Mode) (cval : Rat) (g : Grid n) (p : Fin n → Int) : Rat :=
+  match extPoint m g p with
+  | some q => g.val q
+  | none => cval
+
+/-- the interpolation scheme realises boundary mode `m`: at *every* integer point it returns the
+    boundary-extended array (`scipy.ndimage` does for the mode/order pairs of `extExact`) -/
+def Interp.Extends {n : Nat} (I : Interp n) (m : Mode) (cval : Rat) : Prop :=
+  ∀ (g : Grid n) (p : Fin n → Int), I.eval g (castPt p) = extValue m cval g p
+
+/-- `mode='nearest'` for orders 0 and 1: the coordinate is clamped to the field of view first -/
+def Interp.ClampsCoordinate {n : Nat} (I : Interp n) : Prop :=
+  ∀ (g : Grid n) (x : Vec n), I.eval g x =
+    I.eval g (fun i => if x i < 0 then 0 else if ((g.shape i : Int) : Rat) - 1 < x i then
+      ((g.shape i : Int) : Rat) - 1 else x i)
+
+/-- what a target voxel of the entry point `e` holds: the interpolated value stored in the
+    entry point's output dtype -/
+def entryValue {n k : Nat} (e : Entry) (src : DType) (asked : Option DType) (order : Nat)
+    (I : Interp n) (g : Grid n) (M : Aff n k) (v : Fin k → Int) : Rat :=
+  storeValue e src asked order (resampled I g M v)
+
+/-- order-0 (nearest sample) interpolation under any boundary mode -/
+def nearestEvalMode {n : Nat} (m : Mode) (cval : Rat) (g : Grid n) (x : Vec n) : Rat :=
+  extValue m cval g (fun i => roundHalfUp (x i))
+
+/-! ### Order-1 (multilinear) interpolation in any dimension, under the boundary modes -/
+
+/-- prepend a coordinate -/
+def consI {n : Nat} (i : Int) (p : Fin n → Int) : Fin (n + 1) → Int := fun j => Fin.cases i p j
+
+/-- multilinear interpolation of a function given on the integer lattice: along each axis in
+    turn, `(1 - t)·f(⌊x⌋) + t·f(⌊x⌋ + 1)` with `t = x - ⌊x⌋` -/
+def mlin : (n : Nat) → ((Fin n → Int) → Rat) → (Fin n → Rat) → Rat
+  | 0, f, _ => f (fun i => i.elim0)
+  | n + 1, f, x =>
+    let i := (x 0).floor
+    let t := x 0 - (i : Rat)
+    (1 - t) * mlin n (fun p => f (consI i p)) (fun j => x j.succ)
+      + t * mlin n (fun p => f (consI (i + 1) p)) (fun j => x j.succ)
+
+/-- `scipy.ndimage` with `order=1`: the multilinear interpolant of the boundary-extended array;
+    for `mode='constant'` the fill value as soon as the coordinate leaves the field of view.
+    (Legacy `wrap` folds the *coordinate* with period `len-1`, which is not an extension of the
+    array: off the lattice the model makes no claim for it — see `lin1` in the driver.) -/
+def mlinMode {n : Nat} (m : Mode) (cval : Rat) (g : Grid n) (x : Vec n) : Rat :=
+  if m = .constant then (if g.inFovB x then mlin n (extValue .constant cval g) x else cval)
+  else mlin n (extValue m cval g) x
+
+/-- expected value of the order-1 resampling of arbitrary data under mode `m` (what the driver
+    prints for `lin1`): no claim for legacy `wrap` outside the field of view -/
+def lin1Expected {n k : Nat} (g : Grid n) (m : Mode) (cval : Rat) (M : Aff n k) (v : Fin k → Int) :
+    Option Rat :=
+  let x := M.apply (castPt v)
+  if m = .wrap ∧ ¬ g.inFovB x then none else some (mlinMode m cval g x)
+
+/-- order 0 under mode `m`: SciPy folds the coordinate, then rounds half up; this equals reading
+    the boundary-extended array at the rounded coordinate except at exact half-integers outside
+    the field of view (and for legacy `wrap`): no claim there -/
+def near0Expected {n k : Nat} (g : Grid n) (m : Mode) (cval : Rat) (M : Aff n k) (v : Fin k → Int) :
+    Option Rat :=
+  let x := M.apply (castPt v)
+  if g.inFovB x then some (nearestEvalMode m cval g x)
+  else if m = .wrap ∨ (List.finRange n).any (fun i => (x i).den = 2) then none
+  else if m = .constant then some cval
+  else some (nearestEvalMode m cval g x)
+
 /-! ### What the driver prints -/
 
 def ratInt? (q : Rat) : Option Int := if q.den = 1 then some q.num else none
@@ -300,6 +387,16 @@ def latticeLookup {n k : Nat} (g : Grid n) (fill : Option Rat) (M : Aff n k) (v 
   | some p => if g.insideB p then some (g.val p) else fill
   | none => none
 
+/-- the same under boundary mode `m`: inside, the stored sample; outside, the boundary-extended
+    array when SciPy reproduces it exactly for this mode and order (`extExact`), else no claim -/
+def latticeLookupMode {n k : Nat} (g : Grid n) (m : Mode) (order : Nat) (cval : Rat) (M : Aff n k)
+    (v : Fin k → Int) : Option Rat :=
+  match latticePt? (M.apply (castPt v)) with
+  | some p =>
+    if g.insideB p then some (g.val p)
+    else if extExact m order then some (extValue m cval g p) else none
+  | none => none
+
 /-- expected value of the order-1 resampling of a linear intensity field `L` (in source voxel
     coordinates): `L (M v)` in the field of view; the fill value strictly outside for
     `mode='constant'` (`none` = no claim for other modes) -/
@@ -307,6 +404,21 @@ def fieldExpected {n k : Nat} (g : Grid n) (L : Aff 1 n) (cval : Rat) (constMode
     (M : Aff n k) (v : Fin k → Int) : Option Rat :=
   let x := M.apply (castPt v)
   if g.inFovB x then some (L.apply x 0) else if constMode then some cval else none
+
+def clampVec {n : Nat} (g : Grid n) (x : Vec n) : Vec n :=
+  fun i => if x i < 0 then 0 else if ((g.shape i : Int) : Rat) - 1 < x i then
+    ((g.shape i : Int) : Rat) - 1 else x i
+
+/-- the same with the boundary mode: `constant` / `grid-constant` fill outside, `nearest`
+    evaluates the field at the clamped coordinate, other modes: no claim outside -/
+def fieldExpectedMode {n k : Nat} (g : Grid n) (L : Aff 1 n) (cval : Rat) (m : Mode)
+    (M : Aff n k) (v : Fin k → Int) : Option Rat :=
+  let x := M.apply (castPt v)
+  if g.inFovB x then some (L.apply x 0)
+  else match m with
+    | .constant => some cval
+    | .nearest => some (L.apply (clampVec g x) 0)
+    | _ => none
 
 /-! ### Line protocol -/
 
@@ -359,38 +471,109 @@ def pMKind : P MKind := do
   | "matrix" => pure .matrix | "pair" => pure .pair | "affobj" => pure .affobj
   | "callable" => pure .callable | _ => failure
 
-/-- source array: shape then flat data -/
+def pDType : P DType := do
+  let t ← pTok
+  match DType.ofName? t with
+  | some d => pure d
+  | none => failure
+
+/-- `none` or a dtype name -/
+def pAsked : P (Option DType) := do
+  let t ← pTok
+  if t = "none" then pure none else
+  match DType.ofName? t with
+  | some d => pure (some d)
+  | none => failure
+
+def pMode : P Mode := do
+  let t ← pTok
+  match Mode.ofName? t with
+  | some m => pure m
+  | none => failure
+
+def pRule : P RoundRule := do
+  let t ← pTok
+  match t with
+  | "half-even" => pure .halfEven | "half-away" => pure .halfAway | _ => failure
+
+/-- source array: shape then flat data, and whether every value is representable in `d` -/
+def pGridTyped (n : Nat) (d : DType) : P (Grid n × Bool) := do
+  let sh ← pMany pNat n
+  let flat ← pMany pRat (sh.foldl (· * ·) 1)
+  pure (gridOfFlat n sh flat.toArray, flat.all d.representable)
+
 def pGrid (n : Nat) : P (Grid n) := do
   let sh ← pMany pNat n
   let flat ← pMany pRat (sh.foldl (· * ·) 1)
   pure (gridOfFlat n sh flat.toArray)
 
-/-- what to print about a voxel→voxel map `M`:
-    `mat` | `lookup <tshape> <grid> <cval> <const>` | `field <tshape> <sshape> <L> <cval> <const>` -/
-def pTask (n k : Nat) : P (Aff n k → String) := do
+/-- a stored value: converted to the output dtype; `~` marks a value that was rounded from an
+    exact tie (where the two rounding rules, or inexact arithmetic, may differ) -/
+def fmtStored (e : Entry) (src : DType) (asked : Option DType) (order : Nat) : Option Rat → String
+  | none => "x"
+  | some q =>
+    let d := outDType e src asked order
+    -- boolean outputs: only values that are already 0 or 1 (nearest-neighbour look-ups) are claimed
+    if d = .bool then (if d.representable q then fmtRat q else "x") else
+    fmtRat (storeValue e src asked order q) ++ (if d.isIntegral && isTie q then "~" else "")
+
+/-- what to print about a voxel→voxel map `M` for entry point `e`:
+    `mat` | `dtype <src> <asked> <order>` |
+    `lookup <src> <asked> <order> <mode> <tshape> <grid> <cval>` |
+    `field <src> <asked> <mode> <tshape> <sshape> <L> <cval>` -/
+def pTask (n k : Nat) (e : Entry) : P (Aff n k → String) := do
   let t ← pTok
   match t with
   | "mat" => pure (fun M => fmtAff M)
+  | "dtype" => do
+      let src ← pDType; let asked ← pAsked; let order ← pNat
+      pure (fun _ => (outDType e src asked order).name)
   | "lookup" => do
+      let src ← pDType; let asked ← pAsked; let order ← pNat; let m ← pMode
       let tsh ← pMany pNat k
-      let g ← pGrid n
+      let (g, ok) ← pGridTyped n src
       let cval ← pRat
-      let cm ← pBool
       pure (fun M =>
+        if !ok then "error:notRepresentable" else
         let M := M.freeze
-        let fill := if cm then some cval else none
-        " ".intercalate ((allIdx tsh).map (fun v => fmtOptRat (latticeLookup g fill M (idxFn k v)))))
+        (outDType e src asked order).name ++ " " ++
+        " ".intercalate ((allIdx tsh).map (fun v =>
+          fmtStored e src asked order (latticeLookupMode g m order cval M (idxFn k v)))))
+  | "lin1" => do
+      let src ← pDType; let asked ← pAsked; let m ← pMode
+      let tsh ← pMany pNat k
+      let (g, ok) ← pGridTyped n src
+      let cval ← pRat
+      pure (fun M =>
+        if !ok then "error:notRepresentable" else
+        let M := M.freeze
+        (outDType e src asked 1).name ++ " " ++
+        " ".intercalate ((allIdx tsh).map (fun v =>
+          fmtStored e src asked 1 (lin1Expected g m cval M (idxFn k v)))))
+  | "near0" => do
+      let src ← pDType; let asked ← pAsked; let m ← pMode
+      let tsh ← pMany pNat k
+      let (g, ok) ← pGridTyped n src
+      let cval ← pRat
+      pure (fun M =>
+        if !ok then "error:notRepresentable" else
+        let M := M.freeze
+        (outDType e src asked 0).name ++ " " ++
+        " ".intercalate ((allIdx tsh).map (fun v =>
+          fmtStored e src asked 0 (near0Expected g m cval M (idxFn k v)))))
   | "field" => do
+      let src ← pDType; let asked ← pAsked; let m ← pMode
       let tsh ← pMany pNat k
       let ssh ← pMany pNat n
       let L ← pAff 1 n
       let cval ← pRat
-      let cm ← pBool
       let sha := ssh.toArray
       let g : Grid n := ⟨fun i => sha.getD i 0, fun _ => 0⟩
       pure (fun M =>
         let M := M.freeze
-        " ".intercalate ((allIdx tsh).map (fun v => fmtOptRat (fieldExpected g L cval cm M (idxFn k v)))))
+        (outDType e src asked 1).name ++ " " ++
+        " ".intercalate ((allIdx tsh).map (fun v =>
+          fmtStored e src asked 1 (fieldExpectedMode g L cval m M (idxFn k v)))))
   | _ => failure
 
 def fmtExc : Except String String → String
@@ -400,17 +583,30 @@ def fmtExc : Except String String → String
 def checkInv {n : Nat} (inv a : Aff n n) : Except String Unit :=
   if inv.isInverse a then .ok () else .error "error:notInverse"
 
+def entryOfPath : RPath → Entry
+  | .affineTransform => .resampleAffine
+  | .interpolator => .resampleInterp
+
+/-- `resample`: the mapping must be an `(n+1)×(n+1)` homogeneous matrix (a pair `(A, b)` with
+    `A` `n×n`, `b` of length `n`); anything else is refused by the `AffineTransform` constructor -/
+def mappingShapeOk (n rows cols : Nat) : Bool := rows = n + 1 && cols = n + 1
+
 def runResample : P String := do
   let n ← pNat; let k ← pNat
   let mk ← pMKind
   let srcInv ← pAff n n; let src ← pAff n n; let mapping ← pAff n n; let tgt ← pAff n k
-  let task ← pTask n k
+  let task ← pTask n k (entryOfPath (resamplePath mk))
   pure (fmtExc (do
     checkInv srcInv src
     let M := resampleMap srcInv mapping tgt
     match resamplePath mk with
     | .affineTransform => pure ("affine_transform " ++ task M)
     | .interpolator => pure ("interpolator " ++ task M)))
+
+/-- a mapping array of the wrong shape -/
+def runResampleShape : P String := do
+  let n ← pNat; let rows ← pNat; let cols ← pNat
+  pure (if mappingShapeOk n rows cols then "ok" else "error:valueError")
 
 /-- interpolator branch of `resample`: coordinates handed to `map_coordinates` -/
 def runResampleCoords : P String := do
@@ -427,54 +623,68 @@ def runResampleCoords : P String := do
 def runImg2img : P String := do
   let n ← pNat; let k ← pNat; let sop ← pNat; let top ← pNat
   let srcInv ← pAff n n; let src ← pAff n n; let tgt ← pAff n k
-  let task ← pTask n k
+  let task ← pTask n k .resampleAffine
   pure (fmtExc (do
     checkInv srcInv src
     let M ← img2imgMap sop top srcInv tgt
     pure (task M)))
 
 /-- `ImageInterpolator.evaluate` on explicit world points: coordinates handed to
-    `map_coordinates`, shape of the (padded) knot array, expected values at lattice points -/
+    `map_coordinates`, shape of the (padded) knot array, output dtype, expected values at lattice
+    points (inside: the sample; outside: the boundary-extended image where that is exact — with a
+    pre-pad, only for points at least 4 knots away from the border of the padded array) -/
 def runInterp : P String := do
   let n ← pNat
   let srcInv ← pAff n n; let src ← pAff n n
   let order ← pNat; let mode ← pTok
-  let g ← pGrid n
+  let sdt ← pDType
+  let (g, ok) ← pGridTyped n sdt
   let cval ← pRat
   let pts ← pList (pMany pRat n)
   pure (fmtExc (do
     checkInv srcInv src
+    if !ok then throw "error:notRepresentable"
+    let m ← match Mode.ofName? mode with
+      | some m => pure m
+      | none => throw "error:valueError"
     let srcInv := srcInv.freeze
     let pad := nPrepad order mode
-    let gp := padEdge g pad
+    let gp := knots g order mode cval
     let coords := pts.map (fun p => let a := p.toArray; evalCoords srcInv order mode (fun i => a.getD i 0))
     let shape := fmtNats (List.ofFn gp.shape)
     let cs := " ".intercalate (coords.map (fun c => fmtRats (List.ofFn c)))
     let vals := " ".intercalate (coords.map (fun c =>
       match latticePt? c with
-      | some p => if gp.insideB p then fmtRat (gp.val p) else (if mode = "constant" then fmtRat cval else "x")
+      | some q =>
+        let p : Fin n → Int := fun i => q i - (pad : Int)
+        if g.insideB p then fmtRat (g.val p)
+        else if pad = 0 then
+          (if extExact m order then fmtRat (extValue m cval g p) else "x")
+        else if (List.finRange n).all (fun i => decide (4 ≤ q i) && decide (q i + 5 ≤ (gp.shape i : Int))) then
+          fmtRat (extValue m cval g p)
+        else "x"
       | none => "x"))
-    pure (shape ++ " | " ++ cs ++ " | " ++ vals)))
+    pure ((outDType .interpolator sdt none order).name ++ " | " ++ shape ++ " | " ++ cs ++ " | " ++ vals)))
 
 def runReg : P String := do
   let movInv ← pAff 3 3; let mov ← pAff 3 3; let T ← pAff 3 3; let ref ← pAff 3 3
   let movVox ← pBool; let refVox ← pBool; let isAff ← pBool
   let order ← pNat; let mode ← pTok; let cval ← pRat
-  let task ← pTask 3 3
+  let task ← pTask 3 3 (if useCspline order mode cval then .regFast else .regNdimage)
   pure (fmtExc (do
     checkInv movInv mov
     pure (regRoutine isAff order mode cval ++ " " ++ task (regMap movInv T ref movVox refVox))))
 
 def runRealign : P String := do
   let affInv ← pAff 3 3; let aff ← pAff 3 3; let T ← pAff 3 3
-  let task ← pTask 3 3
+  let task ← pTask 3 3 .realign
   pure (fmtExc (do
     checkInv affInv aff
     pure (task (realignMap affInv T aff))))
 
 def runVolimg : P String := do
   let selfInv ← pAff 3 3; let self ← pAff 3 3; let tgt ← pAff 3 3; let AInv ← pMat3
-  let task ← pTask 3 3
+  let task ← pTask 3 3 .vol
   pure (fmtExc (do
     checkInv selfInv self
     let t := volTransform selfInv self tgt
@@ -482,6 +692,14 @@ def runVolimg : P String := do
     let linInv : Aff 3 3 := ⟨AInv, fun _ => 0⟩
     checkInv linInv lin
     pure ((if t.isDiag then "diag " else "full ") ++ task (volMap selfInv self tgt AInv))))
+
+/-- `composed_with_transform` on a `VolumeImg`: the new voxel→world affine is `W ∘ A`
+    (`AffineTransform.composed_with`: `dot(transform.affine, self.affine)`) -/
+def volCompose (W A : Aff 3 3) : Aff 3 3 := W.comp A
+
+def runVolCompose : P String := do
+  let W ← pAff 3 3; let A ← pAff 3 3
+  pure (fmtAff (volCompose W A))
 
 /-- `xyz_ordered`: new affine, new shape, new data (C order) -/
 def runXyz : P String := do
@@ -494,17 +712,76 @@ def runXyz : P String := do
       fmtAff w.aff ++ " | " ++ fmtNats sh ++ " | " ++
         fmtRats ((allIdx sh).map (fun v => w.g.val (idxFn 3 v))))
 
+/-- `bidx <mode> <len> <k> i₁ … i_k`: SciPy's index extension -/
+def runBidx : P String := do
+  let m ← pMode; let len ← pNat
+  let is ← pList pInt
+  pure (" ".intercalate (is.map (fun i =>
+    match extIndex m len i with
+    | some j => toString j
+    | none => "x")))
+
+/-- `cast <rule> <dtype> <k> q₁ … q_k`: float → dtype conversion -/
+def runCast : P String := do
+  let r ← pRule; let d ← pDType
+  let qs ← pList pRat
+  pure (if d = .bool then "error:boolOutput" else fmtRats (qs.map (castTo r d)))
+
+/-- `outdtype <entry> <src> <asked> <order>` -/
+def runOutDType : P String := do
+  let t ← pTok
+  let src ← pDType; let asked ← pAsked; let order ← pNat
+  match Entry.ofName? t with
+  | some e => pure (outDType e src asked order).name
+  | none => failure
+
+/-- `cs3 <c23: C|exact> <mx> <my> <mz> <d0> <d1> <d2> <coef…> <k> x y z …`:
+    `cubic_spline_sample3d` on explicit coefficients -/
+def runCs3 : P String := do
+  let c ← pTok
+  let c23 ← (if c = "C" then pure c23C else if c = "exact" then pure (2 / 3 : Rat) else failure : P Rat)
+  let mx ← pNat; let my ← pNat; let mz ← pNat
+  let d0 ← pNat; let d1 ← pNat; let d2 ← pNat
+  let flat ← pMany pRat (d0 * d1 * d2)
+  let pts ← pList (pMany pRat 3)
+  let arr := flat.toArray
+  let coef : Nat → Nat → Nat → Rat := fun i j k => arr.getD ((i * d1 + j) * d2 + k) 0
+  pure (if d0 = 0 ∨ d1 = 0 ∨ d2 = 0 ∨ 2 < mx ∨ 2 < my ∨ 2 < mz then "error:valueError" else
+    fmtRats (pts.map (fun p =>
+      let a := p.toArray
+      csSample3 c23 mx my mz (d0 - 1) (d1 - 1) (d2 - 1) coef (a.getD 0 0) (a.getD 1 0) (a.getD 2 0))))
+
+/-- `cslookup <mx> <my> <mz> <grid 3> <k> x y z …`: what the cubic-spline sampler returns at
+    integer points when the coefficients are those of the samples: the looked-up sample under the
+    C boundary mode of each axis, `0` where an axis refuses -/
+def runCsLookup : P String := do
+  let mx ← pNat; let my ← pNat; let mz ← pNat
+  let g ← pGrid 3
+  let pts ← pList (pMany pInt 3)
+  pure (fmtRats (pts.map (fun p =>
+    let a := p.toArray
+    optSample3 (fun i j k => g.val (idxFn 3 [(i : Int), (j : Int), (k : Int)]))
+      (csExtIndex mx (g.shape 0 - 1) (a.getD 0 0)) (csExtIndex my (g.shape 1 - 1) (a.getD 1 0))
+      (csExtIndex mz (g.shape 2 - 1) (a.getD 2 0)))))
+
 def run : Toks → String
   | op :: rest =>
     let p : Option (P String) := match op with
       | "resample" => some runResample
+      | "resampleshape" => some runResampleShape
       | "resamplecoords" => some runResampleCoords
       | "img2img" => some runImg2img
       | "interp" => some runInterp
       | "reg" => some runReg
       | "realign" => some runRealign
       | "volimg" => some runVolimg
+      | "volcompose" => some runVolCompose
       | "xyz" => some runXyz
+      | "bidx" => some runBidx
+      | "cast" => some runCast
+      | "outdtype" => some runOutDType
+      | "cs3" => some runCs3
+      | "cslookup" => some runCsLookup
       | _ => none
     match p with
     | some p => (runP p rest).getD "bad-op"
